@@ -7,6 +7,7 @@ CONSTANTS
   AllowPtr = FALSE
   AllowConstPtr = TRUE
   AllPerms = FALSE
+  ChainMode = FALSE
   Stepwise = FALSE
 INVARIANTS EmitOnly
 CHECK_DEADLOCK FALSE
